@@ -132,3 +132,16 @@ contract("C01.run_basic_checks.body", file=V, func="HedValidator.run_basic_check
              " lambda x: x.severity < 10) for k in range(_n)))",
          ]}},
          calls={"self._def_validator": "DefValidator"})
+
+# C01 "stray placeholder" / C04 (no dependence on how content is written): a group counts as definition content exactly when it IS one of
+# the groups nested in a top-level Definition group (identity), never because it merely has the same content
+contract("C01.validate_individual_tags.definition_scope", file=V, func="HedValidator._validate_individual_tags_in_hed_string",
+         params={"self": "Opaque", "hed_string_obj": "HedString", "allow_placeholders": "Bool"}, returns="Opaque", enc="native",
+         prop="C01", also=["C04"],
+         unwind="havoc", locals={"group": "HedGroup", "all_definition_groups": "List[HedGroup]"},
+         ghost={"init": {"scope_ok": "True", "scope_checks": "0"}, "no_frame": True,
+                "update": [("assign:is_definition",
+                            "scope_ok = scope_ok and (is_definition == any(group is all_definition_groups[k] for k in range(len(all_definition_groups))))"),
+                           ("assign:is_definition", "scope_checks = scope_checks + 1")]},
+         ensures={"C01.definition_scope.by_identity_not_by_content": "scope_ok"},
+         assume=["loops explored as one arbitrary iteration from a havocked state (the clause is about each iteration separately)"])
